@@ -63,6 +63,7 @@ void classifyConfig(const Config &c) {
     st.cls(std::string("kind.") + kindName(slotKinds()[a.slot]));
     if (!a.checks.empty()) st.cls("attr.check");
     if (a.format) st.cls("attr.format");
+    if (!a.posFormats.empty()) st.cls("attr.format_per_position");
     if (a.cardKind != CARD_DEFAULT) st.cls("attr.cardinality");
     if (!a.constraints.empty()) st.cls("attr.arg_constraint");
     if (a.clearFirst) st.cls("attr.clear");
@@ -156,6 +157,7 @@ Line permuteDistinct(const Config &cfg, const Line &line) {
 
 Profile profileFor(const std::string &mode) {
   Profile p;
+  if (mode != "groups") p.positional = true;   // free values have no key: not meaningful across group members
   if (mode == "spell") { p.multiValue = true; p.maxArgs = 6; }
   else if (mode == "valid" || mode == "break" || mode == "groups") {
     p.checks = p.formats = p.cardinality = p.argConstraints = p.handlerConstraints = p.mandatory = true;
@@ -203,7 +205,7 @@ Mutated mutate(const Config &cfg, const Line &valid) {
   std::vector<std::string> kinds = {"unknown_short", "unknown_long", "ambiguous_or_unknown_prefix", "drop_mandatory", "missing_value",
                                     "duplicate_use", "bad_value", "check_violation", "excluded_after_excluder", "missing_required",
                                     "all_of_partial", "any_of_two", "one_of_none", "one_of_two", "differ_equal", "disjoint_common",
-                                    "unique_duplicate", "fixed_overflow", "tuple_short", "bitset_range", "deprecated_use", "too_few_values", "stray_value"};
+                                    "unique_duplicate", "fixed_overflow", "tuple_short", "bitset_range", "deprecated_use", "too_few_values", "stray_value", "overlong_key"};
   m.name = oneOf(kinds);
   auto usesOf = [&](int a) { std::vector<size_t> v; for (size_t i = 0; i < m.line.size(); ++i) if (m.line[i].arg == a) v.push_back(i); return v; };
   auto insertAt = [&](const Use &u) { size_t p = *range<size_t>(0, m.line.size()); m.line.insert(m.line.begin() + static_cast<long>(p), u); };
@@ -214,6 +216,8 @@ Mutated mutate(const Config &cfg, const Line &valid) {
     u.hasValue = true;
     if (isScalar(kind)) u.elems = {genValidText(cfg.args[a], scalarValueType(kind), false)};
     else u.elems = genElems(cfg.args[a], kind, kind == K_TUPLE_ISI ? 3 : 1, kind == K_TUPLE_ISI ? 3 : 2, -1);
+    if (cfg.args[a].spec == "-" && !u.elems.empty() && (u.elems[0].empty() || needsAttach(u.elems[0])))   // positional: a bare word
+      u.elems[0] = (kind == K_STRING || kind == K_VEC_STRING) ? "p" + u.elems[0].substr(u.elems[0].empty() ? 0 : 1) : std::to_string(*range<int>(0, 99));
     return u;
   };
   const std::string &n = m.name;
@@ -235,6 +239,18 @@ Mutated mutate(const Config &cfg, const Line &valid) {
       m.line.insert(m.line.begin() + static_cast<long>(oneOf(pos)), u);
       m.ok = true;
     }
+  } else if (n == "overlong_key") {
+    // a defined long key with something appended: not a key, not an abbreviation of anything
+    std::vector<std::string> cands;
+    for (auto &l : ks.longs) {
+      for (const char *suffix : {"x", "s", "-x", "2", "file"}) {
+        std::string k = l + suffix;
+        bool clash = false;
+        for (auto &o : ks.longs) if (o.compare(0, k.size(), k) == 0) clash = true;   // would be a key or an abbreviation
+        if (!clash) cands.push_back(k);
+      }
+    }
+    if (!cands.empty()) { Use u; u.keyText = oneOf(cands); u.hasValue = pick(40); if (u.hasValue) u.elems = {"5"}; insertAt(u); m.ok = true; }
   } else if (n == "unknown_long") {
     Use u; u.keyText = "zz" + genString(0, 4, "qwz"); u.hasValue = pick(30); if (u.hasValue) u.elems = {"5"};
     insertAt(u); m.ok = true;
@@ -255,7 +271,7 @@ Mutated mutate(const Config &cfg, const Line &valid) {
     if (!mand.empty()) { int a = oneOf(mand); Line l; for (auto &u : m.line) if (u.arg != a) l.push_back(u); m.line = l; m.ok = true; }
   } else if (n == "missing_value") {
     std::vector<size_t> cands;
-    for (size_t i = 0; i < m.line.size(); ++i) if (m.line[i].arg >= 0 && m.line[i].hasValue && !cfg.args[m.line[i].arg].optionalValue) cands.push_back(i);
+    for (size_t i = 0; i < m.line.size(); ++i) if (m.line[i].arg >= 0 && m.line[i].hasValue && !cfg.args[m.line[i].arg].optionalValue && cfg.args[m.line[i].arg].spec != "-") cands.push_back(i);
     if (!cands.empty()) { size_t i = oneOf(cands); m.line[i].hasValue = false; m.line[i].elems.clear(); m.line[i].free.clear(); m.ok = true; }
   } else if (n == "duplicate_use") {
     if (!m.line.empty()) {
@@ -277,7 +293,8 @@ Mutated mutate(const Config &cfg, const Line &valid) {
       if (kind == K_LONG) bad = {"12x", "abc", "99999999999999999999", "1e"};
       if (isBits(kind)) bad = {"12x", "abc", "x7", "1.5.2", "1x1"};   // any non-negative number is a legal position
       if (kind == K_DOUBLE) bad = {"abc", "1.5.2", "1,5x", "--1"};
-      if (isScalar(kind)) { bad.push_back(""); m.line[i].elems = {oneOf(bad)}; }
+      if (cfg.args[m.line[i].arg].spec == "-") bad = {"12x", "abc", "x7", "1.5.2", "9x9"};   // a bare word: nothing that looks like a key
+      if (isScalar(kind)) { if (cfg.args[m.line[i].arg].spec != "-") bad.push_back(""); m.line[i].elems = {oneOf(bad)}; }
       else { size_t e = *range<size_t>(0, m.line[i].elems.size() - 1); std::string b = oneOf(bad); if (b == "--") b = "1x1"; m.line[i].elems[e] = b; }
       m.ok = true;
     }
@@ -299,7 +316,8 @@ Mutated mutate(const Config &cfg, const Line &valid) {
         case CH_MAXLEN: v = genString(atoi(ch.a.c_str()) + 1, atoi(ch.a.c_str()) + 4, "ab"); break;
         default: v = pick(50) ? "A?" : "Z9z!"; break;
       }
-      if (!v.empty() || isScalar(sk[a.slot])) {
+      if (a.spec == "-" && (v.empty() || needsAttach(v))) v.clear();   // positional: must stay a bare word, otherwise skip
+      if (!v.empty() || (isScalar(sk[a.slot]) && a.spec != "-")) {
         size_t e = *range<size_t>(0, m.line[i].elems.size() - 1);
         m.line[i].elems[e] = v;
         m.ok = true;
@@ -473,7 +491,7 @@ std::string runFold(const Case &c) {
   st.cls(std::string("fold.kind.") + kindName(kind));
   if (freeWords) st.cls("fold.free_values");
   if (maxUses >= 2) st.cls("fold.repeated_use");
-  bool option = a.clearFirst || a.sort || a.unique || a.listSep || a.format || !a.checks.empty();
+  bool option = a.clearFirst || a.sort || a.unique || a.listSep || a.format || !a.checks.empty() || !a.posFormats.empty();
   if ((maxUses >= 2 || freeWords) && elems >= 3 && option) st.markNontrivial();
   return "";
 }
@@ -631,6 +649,7 @@ rc::Gen<Case> genSources() {
         const ArgDef &a = c.cfg.args[dup.arg];
         dup.elems = {genValidText(a, scalarValueType(sk[a.slot]), false)};
         if (dup.elems[0].empty()) dup.elems[0] = "x";
+        if (a.spec == "-" && needsAttach(dup.elems[0])) dup.elems[0] = sk[a.slot] == K_STRING ? "p" + dup.elems[0].substr(1) : std::to_string(*range<int>(0, 99));   // a bare word
         dup.source = pick(50) ? first : second;
         size_t at = dup.source == first ? *range<size_t>(0, i) : *range<size_t>(i, j);
         ov.insert(ov.begin() + static_cast<long>(at), dup);
@@ -915,7 +934,9 @@ rc::Gen<Case> genUsage() {
     } else if (cfg.flags & (F_HELP_ARG | F_HELP_ARG_FULL)) {
       std::string helpKey = (cfg.flags & F_HELP_ARG) && (!(cfg.flags & F_HELP_ARG_FULL) || pick(50)) ? "--help-arg" : "--help-arg-full";
       std::string key;
-      if (pick(80)) { const ArgDef &a = oneOf(cfg.args); key = (a.shortKey && (a.longKey.empty() || pick(50))) ? std::string(1, a.shortKey) : a.longKey; }
+      std::vector<const ArgDef *> keyed;
+      for (auto &a : cfg.args) if (a.shortKey || !a.longKey.empty()) keyed.push_back(&a);
+      if (!keyed.empty() && pick(80)) { const ArgDef &a = *oneOf(keyed); key = (a.shortKey && (a.longKey.empty() || pick(50))) ? std::string(1, a.shortKey) : a.longKey; }
       else key = pick(50) ? "Q" : "no-such-argument";
       v.in.argv.push_back(helpKey + "=" + key);
       v.note = "help-arg " + key;
